@@ -283,6 +283,28 @@ fn random_scenario(g: &mut GRng, id: u64, seed: u64, max_packets: usize, no_mach
         let np = g.gen_range(1..=max_packets);
         let mut t = 0i64;
         let mut trace = Vec::new();
+        if g.gen_range(0..3) == 0 {
+            // structured: bursts of one direction (identical or near-identical timestamps),
+            // separated by long gaps, other-direction packets in between, a late straggler
+            let nb = g.gen_range(1..=3);
+            for b in 0..nb {
+                let dir = g.gen_bool(0.5);
+                let n = g.gen_range(2..=max_packets.max(4) / 2 + 10);
+                for _ in 0..n {
+                    t += *[0i64, 0, 0, 0, 1, 50].get(g.gen_range(0..6)).unwrap();
+                    trace.push((t, dir));
+                }
+                t += *[100i64, 100_000, 300_000, 1_200_000].get(g.gen_range(0..4)).unwrap();
+                for _ in 0..g.gen_range(0..3) {
+                    trace.push((t, !dir));
+                    t += *[0i64, 10, 150_000].get(g.gen_range(0..3)).unwrap();
+                }
+                if b + 1 == nb {
+                    t += *[0i64, 1_000, 2_000_000, 3_000_000].get(g.gen_range(0..4)).unwrap();
+                    trace.push((t, dir));
+                }
+            }
+        } else {
         for i in 0..np {
             if i > 0 {
                 t += *[0i64, 0, 0, 1, 10, 100, 1000, 1000, 50_000, 1_000_000]
@@ -290,6 +312,7 @@ fn random_scenario(g: &mut GRng, id: u64, seed: u64, max_packets: usize, no_mach
                     .unwrap();
             }
             trace.push((t, g.gen_bool(0.5)));
+        }
         }
         let delay_us = *[0u64, 0, 1, 10, 1000, 10_000, 50_000].get(g.gen_range(0..7)).unwrap();
         let pps = if !no_machines && g.gen_range(0..8) == 0 {
@@ -319,14 +342,21 @@ fn random_scenario(g: &mut GRng, id: u64, seed: u64, max_packets: usize, no_mach
         };
         let mc = gen_side(g);
         let ms = gen_side(g);
+        let trace_len = trace.len();
         let sc = Scenario {
             trace,
             delay_us,
             pps,
             fracs: if no_machines { [(0, 1); 4] } else { [gen_frac(g), gen_frac(g), gen_frac(g), gen_frac(g)] },
-            seed: seed.wrapping_mul(31).wrapping_add(id),
+            // all seeds, including the corners of the u64 range
+            seed: if g.gen_range(0..3) == 0 {
+                *[u64::MAX, u64::MAX, u64::MAX, 0u64, u64::MAX - 1, 1u64 << 63].get(g.gen_range(0..6)).unwrap()
+            } else {
+                seed.wrapping_mul(31).wrapping_add(id)
+            },
             cont: g.gen_bool(0.4),
-            max_it: *[400usize, 2000].get(g.gen_range(0..2)).unwrap(),
+            // the iteration bound must not cut a run short of its own trace (4 events per packet)
+            max_it: *[400usize, 2000].get(g.gen_range(0..2)).unwrap() + 6 * trace_len,
             mtl: *[1usize, 7, 50].get(g.gen_range(0..3)).unwrap(),
             mc,
             ms,
